@@ -39,7 +39,7 @@ ATOMS = [None, False, True, 0, 1, 2, 1.0, -0.0, 2.5, '', '0', '1', 'a', 'true', 
          float('inf'), -float('inf')]
 SUBS = [Color.RED, MyStr('a'), MyInt(1), MyFloat(1.0), MyList([1]), MyDict({'a': 1})]
 KEYS = ['a', '0', '1', 1, 1.0, True, None, 2.5, Color.RED, MyInt(1), MyFloat(2.5), MyStr('a'),
-        float('inf')]
+        float('inf'), -float('inf'), float('nan'), False, 0, 0.0, -0.0]
 
 
 def typed_eq(a, b):
@@ -141,6 +141,14 @@ def replay(req):
     n = 0
     vals = values(2 if tier == 'thorough' else 1, True) + [Opaque(), [Opaque()], {'a': Opaque()},
                                                           {(1, 2): 1}, {1, 2}]
+    # non-JSON sequences, mappings and numbers (json.dumps refuses them; so must sanitize)
+    import collections
+    import decimal
+    import fractions
+    vals = [b'v2', bytearray(b'x'), range(2), [b'a'], {'k': range(1)}, frozenset([1]),
+            collections.deque([1]), collections.UserList([1]), collections.UserDict({'a': 1}),
+            decimal.Decimal('1.5'), fractions.Fraction(1, 2), 1j, iter([1]), (x for x in [1]),
+            memoryview(b'ab'), {b'k': 1}] + vals
     for v in vals:
         n += 1
         bad = check_sanitize(JsonUtil, v)
@@ -173,6 +181,18 @@ def replay(req):
             pass
     if tier != 'thorough':
         san = san[:140]
+    # lists vs tuples below dicts (is_equal equates them at every depth)
+    san = [{'k': (1,)}, {'k': [1]}, {'k': {'j': (1, 2)}}, {'k': {'j': [1, 2]}}, [{'k': ()}],
+           [{'k': []}], {'k': (True,)}, {'k': [1.0]}] + san
+
+    def has_tuple(v):
+        if isinstance(v, tuple):
+            return True
+        if isinstance(v, list):
+            return any(has_tuple(x) for x in v)
+        if isinstance(v, dict):
+            return any(has_tuple(x) for x in v.values())
+        return False
     for a in san:
         n += 1
         if not JsonUtil.is_equal(a, a):
@@ -187,9 +207,7 @@ def replay(req):
             return {'reproduced': True, 'check': 'is_equal differs from JSON equality',
                     'input': repr((a, b)), 'observed': e, 'expected': r, 'evaluations': n,
                     'how': 'JsonUtil.is_equal(%r, %r)' % (a, b)}
-        ta = isinstance(a, tuple) or (isinstance(a, list) and any(isinstance(x, tuple) for x in a))
-        tb = isinstance(b, tuple) or (isinstance(b, list) and any(isinstance(x, tuple) for x in b))
-        if ta or tb:
+        if has_tuple(a) or has_tuple(b):
             continue
         ha, hb = JsonUtil.to_hashable(a), JsonUtil.to_hashable(b)
         h = (ha == hb)
